@@ -191,3 +191,165 @@ Lemma take_while_app (p : N -> bool) nm c r : Forall (fun x => p x = true) nm ->
 Proof.
   intros Hn Hc. induction Hn as [|x nm Hx _ IH]; cbn [app take_while]; [rewrite Hc; reflexivity|]. rewrite Hx, IH. reflexivity.
 Qed.
+
+(* ---- the lexer as a whole: every layout of a token sequence is read back as that sequence ---- *)
+From JS Require Import Proofs.EnumProofs Proofs.JsonValueProofs.
+
+Definition punct (c : N) : option stok :=
+  if c =? 123 then Some KLB else if c =? 125 then Some KRB else if c =? 91 then Some KLS else if c =? 93 then Some KRS
+  else if c =? 44 then Some KComma else if c =? 58 then Some KColon else None.
+Definition no_nl_b (c : bytes) : Prop := Forall (fun x => is_nl x = false) c.
+Definition line_end (r : bytes) : Prop := r = [] \/ exists n r', r = n :: r' /\ is_nl n = true.
+Definition name_bytes (nm : bytes) : Prop := Forall (fun c => name_byte c = true) nm.
+Definition name_stop (r : bytes) : Prop := match r with [] => True | c :: _ => name_byte c = false end.
+
+(* the text of a reference: @a, or @a | @b | ... with any blanks around the bars.  RefTail: the names after the first
+   one together with the text that follows the first name *)
+Inductive RefTail : list bytes -> bytes -> Prop :=
+| rtl_nil : RefTail [] []
+| rtl_more w1 w2 nm ns tail : ws w1 -> ws w2 -> name_bytes nm -> RefTail ns tail ->
+    RefTail ((64 :: nm) :: ns) (w1 ++ 124 :: w2 ++ 64 :: nm ++ tail).
+Definition RefText (ns : list bytes) (s : bytes) : Prop :=
+  exists nm rest tail, ns = (64 :: nm) :: rest /\ s = 64 :: nm ++ tail /\ name_bytes nm /\ RefTail rest tail.
+
+(* SLay s ts: the text s is a layout of the token sequence ts *)
+Inductive SLay : bytes -> list stok -> Prop :=
+| sl_nil : SLay [] []
+| sl_blank c r t : is_blank c = true -> SLay r t -> SLay (c :: r) t
+| sl_punct c k r t : punct c = Some k -> SLay r t -> SLay (c :: r) (k :: t)
+| sl_scal lit r t : EnumScalar lit -> stop r -> SLay r t -> SLay (lit ++ r) (KScal lit :: t)
+| sl_ref ns s r t : RefText ns s -> name_stop r -> (match trim_left r with 124 :: _ => False | _ => True end) -> SLay r t ->
+    SLay (s ++ r) (KRef ns :: t)
+| sl_comment c r t : no_nl_b c -> (forall c', c <> 35 :: 35 :: c') -> line_end r -> SLay r t -> SLay (35 :: c ++ r) t
+| sl_ann_line text a r t : no_nl_b text -> parse_ann text = Some a -> line_end r -> SLay r t -> SLay (47 :: 47 :: text ++ r) (KAnn a :: t)
+| sl_note_block text r t : (forall u v, text <> u ++ 42 :: 47 :: v) -> (forall u, text <> u ++ [42]) ->
+    (exists c x, trim_left text = c :: x /\ c <> 123) -> SLay r t ->
+    SLay (47 :: 42 :: text ++ 42 :: 47 :: r) (KAnn (mk_ann [] (trim text)) :: t).
+
+Lemma take_line_end c r : no_nl_b c -> line_end r -> take_line (c ++ r) = (c, r).
+Proof.
+  intros Hc [-> |(n & r' & -> & Hn)]; [rewrite app_nil_r; apply take_line_eof; exact Hc|apply take_line_nl; assumption].
+Qed.
+Lemma slex_punct f c k r : punct c = Some k -> slex (S f) (c :: r) = (do t <- slex f r; Ok (k :: t)).
+Proof.
+  unfold punct. intros H. cbn [slex].
+  destruct (N.eqb_spec c 123) as [->|H1]; [inversion H; reflexivity|].
+  destruct (N.eqb_spec c 125) as [->|H2]; [inversion H; reflexivity|].
+  destruct (N.eqb_spec c 91) as [->|H3]; [inversion H; reflexivity|].
+  destruct (N.eqb_spec c 93) as [->|H4]; [inversion H; reflexivity|].
+  destruct (N.eqb_spec c 44) as [->|H5]; [inversion H; reflexivity|].
+  destruct (N.eqb_spec c 58) as [->|H6]; [inversion H; reflexivity|discriminate].
+Qed.
+
+Lemma scalar_first lit : EnumScalar lit -> exists c l', lit = c :: l' /\ is_blank c = false /\ punct c = None /\ c <> 35 /\ c <> 47 /\ c <> 64.
+Proof.
+  intros Hl. destruct (scalar_head lit Hl) as (c & l' & -> & Hw & H91 & H123 & H93 & H125). exists c, l'. split; [reflexivity|]. split; [exact Hw|].
+  assert (Hx : c <> 44 /\ c <> 58 /\ c <> 35 /\ c <> 47 /\ c <> 64).
+  { destruct Hl as [(b & E & _)|[(m & i & fr & E & Hm & Hi & _)|[E|[E|E]]]]; try (inversion E; subst; repeat split; discriminate).
+    destruct Hm as [-> | ->]; cbn [app] in E.
+    - destruct Hi as [-> |(d & ds & -> & Hd & _)]; cbn [app] in E; inversion E; subst; [repeat split; discriminate|].
+      unfold digit19 in Hd. apply andb_true_iff in Hd. destruct Hd as [A B]. apply N.leb_le in A, B. repeat split; lia.
+    - inversion E; subst. repeat split; discriminate. }
+  destruct Hx as (H44 & H58 & H35 & H47 & H64). split; [|auto].
+  unfold punct. apply N.eqb_neq in H123, H125, H91, H93, H44, H58. rewrite H123, H125, H91, H93, H44, H58. reflexivity.
+Qed.
+Lemma slex_scal f lit r : EnumScalar lit -> stop r -> slex (S f) (lit ++ r) = (do t <- slex f r; Ok (KScal lit :: t)).
+Proof.
+  intros Hl Hr. destruct (scalar_first lit Hl) as (c & l' & -> & Hb & Hp & H35 & H47 & H64).
+  pose proof (scalar_rescan (c :: l') Hl r Hr) as Hs. cbn [app] in *. cbn [slex]. rewrite Hb.
+  unfold punct in Hp.
+  destruct (c =? 123); [discriminate|]. destruct (c =? 125); [discriminate|]. destruct (c =? 91); [discriminate|].
+  destruct (c =? 93); [discriminate|]. destruct (c =? 44); [discriminate|]. destruct (c =? 58); [discriminate|].
+  apply N.eqb_neq in H35, H47, H64. rewrite H35, H47, H64, Hs. reflexivity.
+Qed.
+
+(* references *)
+Lemma trim_left_ws w s : ws w -> trim_left (w ++ s) = trim_left s.
+Proof. induction 1 as [|c w Hc _ IH]; cbn [app trim_left]; [reflexivity|]. unfold is_blank. rewrite Hc. exact IH. Qed.
+Lemma ref_names_stop f r acc : (match trim_left r with 124 :: _ => False | _ => True end) -> ref_names f r acc = (rev acc, r).
+Proof.
+  intros H. destruct f; [reflexivity|]. cbn [ref_names]. destruct (trim_left r) as [|c t]; [reflexivity|].
+  destruct c as [|p]; [reflexivity|]. repeat (destruct p as [p|p|]; try reflexivity). destruct H.
+Qed.
+Lemma take_while_all (p : N -> bool) nm : Forall (fun x => p x = true) nm -> take_while p nm = (nm, []).
+Proof. induction 1 as [|x nm Hx _ IH]; cbn [take_while]; [reflexivity|]. rewrite Hx, IH. reflexivity. Qed.
+Lemma tail_first_stop ns tail r : RefTail ns tail -> name_stop r -> name_stop (tail ++ r).
+Proof.
+  intros Ht Hr. destruct Ht as [|w1 w2 nm ns tail Hw1 _ _ _]; [exact Hr|].
+  destruct w1 as [|c w1']; cbn [app name_stop]; [reflexivity|]. inversion Hw1 as [|? ? Hc _]; subst.
+  apply is_ws_cases in Hc. destruct Hc as [-> |[-> |[-> | ->]]]; reflexivity.
+Qed.
+Lemma take_name nm x : name_bytes nm -> name_stop x -> take_while name_byte (nm ++ x) = (nm, x).
+Proof.
+  intros Hn Hx. destruct x as [|c x']; [rewrite app_nil_r; apply take_while_all; exact Hn|apply take_while_app; assumption].
+Qed.
+Lemma reftail_names ns tail : RefTail ns tail -> forall r acc f, name_stop r -> (match trim_left r with 124 :: _ => False | _ => True end) ->
+  (length tail <= f)%nat -> ref_names f (tail ++ r) acc = (rev acc ++ ns, r).
+Proof.
+  induction 1 as [|w1 w2 nm ns tail Hw1 Hw2 Hnm Hrest IH]; intros r acc f Hstop Hbar Hf.
+  - cbn [app]. rewrite (ref_names_stop f r acc Hbar). rewrite app_nil_r. reflexivity.
+  - destruct f as [|f]; [rewrite !app_length in Hf; cbn [length] in Hf; lia|]. cbn [ref_names].
+    repeat (rewrite <- ?app_assoc; cbn [app]).
+    rewrite (trim_left_ws w1 _ Hw1). cbn [trim_left]. change (is_blank 124) with false. cbn iota.
+    rewrite (trim_left_ws w2 _ Hw2). cbn [trim_left]. change (is_blank 64) with false. cbn iota.
+    rewrite (take_name nm (tail ++ r) Hnm (tail_first_stop ns tail r Hrest Hstop)).
+    rewrite (IH r ((64 :: nm) :: acc) f Hstop Hbar); [cbn [rev]; rewrite <- app_assoc; reflexivity|].
+    rewrite !app_length in Hf. cbn [length] in Hf. rewrite !app_length in Hf. cbn [length] in Hf. rewrite !app_length in Hf. lia.
+Qed.
+Lemma slex_ref f ns s r : RefText ns s -> name_stop r -> (match trim_left r with 124 :: _ => False | _ => True end) ->
+  slex (S f) (s ++ r) = (do t <- slex f r; Ok (KRef ns :: t)).
+Proof.
+  intros (nm & rest & tail & -> & -> & Hnm & Htail) Hstop Hbar. cbn [app slex]. change (is_blank 64) with false. cbn [N.eqb Pos.eqb].
+  rewrite <- app_assoc. rewrite (take_name nm (tail ++ r) Hnm (tail_first_stop rest tail r Htail Hstop)).
+  rewrite (reftail_names rest tail Htail r [64 :: nm] (length (tail ++ r)) Hstop Hbar ltac:(rewrite app_length; lia)). reflexivity.
+Qed.
+
+Lemma slex_comment_end c r f : no_nl_b c -> (forall c', c <> 35 :: 35 :: c') -> line_end r -> slex (S f) (35 :: c ++ r) = slex f r.
+Proof.
+  intros Hc Hnb Hr. cbn [slex]. change (is_blank 35) with false. cbn [N.eqb Pos.eqb].
+  rewrite match_not_hh.
+  - rewrite (take_line_end c r Hc Hr). reflexivity.
+  - intros r' E. destruct c as [|c1 c]; cbn [app] in E.
+    + destruct Hr as [-> |(n & r0 & -> & Hn)]; [discriminate|]. inversion E; subst. discriminate Hn.
+    + destruct c as [|c2 c]; cbn [app] in E.
+      * destruct Hr as [-> |(n & r0 & -> & Hn)]; [discriminate|]. inversion E; subst. discriminate Hn.
+      * inversion E; subst. exact (Hnb c eq_refl).
+Qed.
+Lemma slex_ann_line text a r f : no_nl_b text -> parse_ann text = Some a -> line_end r ->
+  slex (S f) (47 :: 47 :: text ++ r) = (do t <- slex f r; Ok (KAnn a :: t)).
+Proof.
+  intros Ht Hp Hr. cbn [slex]. change (is_blank 47) with false. cbn [N.eqb Pos.eqb]. rewrite (take_line_end text r Ht Hr), Hp. reflexivity.
+Qed.
+Lemma slex_note_block text r f : (forall u v, text <> u ++ 42 :: 47 :: v) -> (forall u, text <> u ++ [42]) ->
+  (exists c x, trim_left text = c :: x /\ c <> 123) ->
+  slex (S f) (47 :: 42 :: text ++ 42 :: 47 :: r) = (do t <- slex f r; Ok (KAnn (mk_ann [] (trim text)) :: t)).
+Proof.
+  intros Hno Hedge (c0 & t0 & Et & Hc0). cbn [slex]. change (is_blank 47) with false. cbn [N.eqb Pos.eqb]. unfold block_ann.
+  rewrite (trim_left_app_nb text (42 :: 47 :: r)) by (rewrite Et; exact I). rewrite Et. cbn [app].
+  rewrite (take_until2_app 42 47 text r Hno (or_introl Hedge)).
+  destruct c0 as [|p]; [reflexivity|]. repeat (destruct p as [p|p|]; try reflexivity). congruence.
+Qed.
+
+(* every layout of a token sequence is read back as that token sequence *)
+Theorem slex_layout s ts : SLay s ts -> forall f, (length s < f)%nat -> slex f s = Ok ts.
+Proof.
+  induction 1 as [|c r t Hc _ IH|c k r t Hk _ IH|lit r t Hl Hr _ IH|ns s r t Hs Hstop Hbar _ IH|c r t Hc Hnb Hr _ IH|text a r t Ht Hp Hr _ IH|text r t Hno Hedge Hnote _ IH];
+    intros f Hf.
+  - destruct f; [lia|reflexivity].
+  - destruct f; [lia|]. cbn [slex]. rewrite Hc. apply IH. cbn [length] in Hf. lia.
+  - destruct f; [lia|]. rewrite (slex_punct f c k r Hk). rewrite IH by (cbn [length] in Hf; lia). reflexivity.
+  - destruct f; [lia|]. rewrite (slex_scal f lit r Hl Hr). rewrite IH; [reflexivity|].
+    destruct (scalar_first lit Hl) as (c & l' & -> & _). rewrite app_length in Hf. cbn [length] in Hf. lia.
+  - destruct f; [lia|]. rewrite (slex_ref f ns s r Hs Hstop Hbar). rewrite IH; [reflexivity|].
+    destruct Hs as (nm & rest & tail & _ & -> & _). rewrite app_length in Hf. cbn [length] in Hf. lia.
+  - destruct f; [lia|]. rewrite (slex_comment_end c r f Hc Hnb Hr). apply IH. cbn [length] in Hf. rewrite app_length in Hf. lia.
+  - destruct f; [lia|]. rewrite (slex_ann_line text a r f Ht Hp Hr). rewrite IH; [reflexivity|]. cbn [length] in Hf. rewrite app_length in Hf. lia.
+  - destruct f; [lia|]. rewrite (slex_note_block text r f Hno Hedge Hnote). rewrite IH; [reflexivity|].
+    cbn [length] in Hf. rewrite app_length in Hf. cbn [length] in Hf. lia.
+Qed.
+
+(* layout independence of the model, in one statement: whatever the layout of a writing of a tree, the tree is that tree *)
+Corollary sparse_layout v tv s : TR v tv -> SLay s tv -> sparse s = Some v.
+Proof. intros Ht Hs. unfold sparse. rewrite (slex_layout s tv Hs (S (length s)) ltac:(lia)). apply sparse_toks_complete. exact Ht. Qed.
+Corollary two_layouts v tv s1 s2 : TR v tv -> SLay s1 tv -> SLay s2 tv -> sparse s1 = sparse s2.
+Proof. intros Ht H1 H2. rewrite (sparse_layout v tv s1 Ht H1), (sparse_layout v tv s2 Ht H2). reflexivity. Qed.
